@@ -291,18 +291,13 @@ public:
                this->the_first = list.last()->next();
          }
          else if(last() == list.last())
-            this->the_last = list.last()->prev();
+            this->the_last = list.first()->prev();
          else
          {
-            T* after = first();
+            T* after = list.first()->prev();
 
-            for(; after->next() != list.first(); after = after->next())
-               ;
-
-            if(last() == list.last())
-               this->the_last = after;
-            else
-               after->next() = list.last()->next();
+            after->next() = list.last()->next();
+            after->next()->prev() = after;
          }
       }
    }
